@@ -24,6 +24,21 @@ PROPS = {
     },
 }
 
+LEVEL_NOTE_GBN = "Trusts the Go runtime, testing/synctest's virtual clock and the instrumenter's rewrite (channel ops, select, locks, spawns, sleeps are the scheduling points); the transport is a stub written for the harness."
+EXPL_TEXT = "Seeded search over schedules and fault sequences of the real code in virtual time: one seed is one exactly repeatable execution; many short swarm-varied runs; every violation is minimised and replayed in a fresh process. A clean batch is evidence, not proof."
+
+PROPS["C09"] = {
+    "pkgs": ["gbn"],
+    "level": "exploration",
+    "quick_budget": 50, "thorough_budget": 1500,
+    "rule": "Three sub-batches. window-wire: simulated bidirectional traffic (N drawn from 1..254, lossy/duplicating/delaying links, static/adaptive timeouts, keepalive on/off) with a black-box wire monitor (first transmissions minus cumulative acknowledgements delivered) and white-box queue invariants evaluated at every transmission. send-blocks: acknowledgements withheld after the handshake, count of returned Sends compared with N, then released. window-arith: exhaustive enumeration, per sequence space s in {2..40,64,65,128,129,200,254,255}, of every (base,top) x every ACK and NACK byte value through the real processACK/processNACK." + SIG_RULE + " For the enumerated sub-batch a case is one s; its signature is s.",
+    "assumptions": ["wire monitor counts an ACK as processed when the transport delivers it, which can only under-estimate what the sender considers outstanding (sound for the <= N claim)"],
+    "components": GBN_COMPONENTS,
+    "expected_probes": ["c09.window-filled", "c09.retransmission", "c09.arith-cases"],
+    "level_text": EXPL_TEXT + " The window arithmetic sub-batch is a complete enumeration over the listed sequence spaces.",
+    "level_note": LEVEL_NOTE_GBN,
+}
+
 # Properties that are pure functions of their input: no schedule, clock, fault
 # or interleaving enters them, so deterministic simulation has nothing to decide.
 NOT_APPLICABLE = {
